@@ -25,6 +25,7 @@ def run(prog, rep):
         prog.method(c, m)
     jobs = [("inflow", c) for c in SC.dsm_configs(rep.tier)]
     jobs += [("stockdriven", dict(c, both_generic=True)) for c in SC.dsm_configs(rep.tier) if c["n_pts"] == 1 and c["n_t"] <= 4]
+    jobs += [("stockdriven", c) for c in SC.int_driver_configs(rep.tier)]
     run_stock_property(prog, rep, "C09", jobs, {"cohort-sums": "C09.totals-are-cohort-sums", "cohort-zero-above": "C09.zero-for-later-cohorts",
                                                 "cohort-share": "C09.cohort-share", "cohort-conservation": "C09.cohort-conservation"})
     rep.rules["C09.totals-are-cohort-sums"]["floor"] = 30
